@@ -375,6 +375,64 @@ def rule_tail(ms) -> typing.List[dict]:
     return out
 
 
+def rule_subspan_tail(ms) -> typing.List[dict]:
+    """R-C14-TAIL (window clause): any_bitspan::subspan() computes the bytes left behind an offset as data_.size() - offset_bytes.  Both
+    are unsigned: once the offset has moved past the end (zero extension lets it) the difference wraps to a huge size unless the
+    subtraction is taken only where offset_bytes < data_.size() - whatever limit the caller passes is no substitute (the default is
+    `no limit`)."""
+    R = "R-C14-TAIL"
+    out: typing.List[dict] = []
+    ks = [k for k in ms if k.startswith("any_bitspan::subspan")]
+    if not ks:
+        raise AnalysisError("anchor missing: any_bitspan::subspan")
+    n = 0
+    for k in ks:
+        v = View(k, ms[k])
+
+        def is_size(t):
+            return "data_.size()" in cast.show(t).replace(" ", "") and t[0] in ("mcall", "call", "mem")
+
+        def walk(t, facts):
+            nonlocal n
+            if not isinstance(t, tuple) or not t:
+                return
+            if isinstance(t[0], tuple):          # an argument list
+                for y in t:
+                    walk(y, facts)
+                return
+            if t[0] == "cond":
+                c = t[1]
+                walk(c, facts)
+                walk(t[2], facts + [(c, True)])
+                walk(t[3], facts + [(c, False)])
+                return
+            if t[0] == "bin" and t[1] == "-" and is_size(t[2]):
+                n += 1
+                a, b = t[2], t[3]
+                ok = False
+                for c, pol in facts:
+                    if c[0] == "bin" and pol and ((c[1] in ("<", "<=") and c[2] == b and c[3] == a) or (c[1] in (">", ">=") and c[2] == a and c[3] == b)):
+                        ok = True
+                    if c[0] == "bin" and not pol and ((c[1] in (">", ">=") and c[2] == b and c[3] == a) or (c[1] in ("<", "<=") and c[2] == a and c[3] == b)):
+                        ok = True
+                out.append(res(R, k, f"{k}: `{cast.show(t)}` is taken only where the offset lies inside the data", ok,
+                               "unsigned subtraction without a guard: for an offset past the end of the data (reached through implicit zero extension) the window's "
+                               "size wraps around and a nested object is decoded from memory behind the buffer"))
+            for x in t[1:]:
+                if isinstance(x, tuple):
+                    walk(x, facts)
+                elif isinstance(x, (list,)):
+                    for y in x:
+                        walk(y, facts)
+
+        for s_, t in v.terms():
+            gfacts = [(g[1], g[0] == "if") for g in s_.guards if g[0] in ("if", "else")]
+            walk(cast.substitute(t, {}), gfacts)
+    if n == 0:
+        out.append(res(R, ks[0], f"{ks[0]}: remaining-bytes computation recognised", False, "no `data_.size() - <offset>` found"))
+    return out
+
+
 def rule_rmw(ms) -> typing.List[dict]:
     k = "const_bitspan::copyTo/2"
     v = View(k, ms[k])
@@ -576,6 +634,7 @@ def analyse(objs, text: str, point):
     out += rule_tail(ms)
     out += rule_narrow(ms)
     out += rule_rmw(ms)
+    out += rule_subspan_tail(ms)
     out += rule_byte_order(ms, point[0])
     out += rule_zero_span(ms)
     out += rule_family(ms)
